@@ -18,6 +18,8 @@ if REPO not in sys.path:
     sys.path.insert(0, REPO)
 
 REGISTRY = {}  # prop -> list[Obligation]
+# properties whose complete (thorough) configuration set runs in well under a minute: the quick tier runs all of it
+PROMOTE_ALL = {"C01", "C05", "C06", "C07", "C12", "C14", "C16", "C19", "C20"}
 MAX_CLASSES = 400
 
 
@@ -62,6 +64,8 @@ def ob(prop, params=None, tier="quick", gating=True, generic=False, max_paths=60
         for p in plist:
             p = dict(p)
             t = p.pop("_tier", tier)
+            if prop in PROMOTE_ALL and gating:
+                t = "quick"
             mpaths = p.pop("_max_paths", max_paths)
             REGISTRY.setdefault(prop, []).append(
                 Obligation(prop, name or fn.__name__, fn, p, t, gating, generic, mpaths, rlimit, wall_s,
